@@ -268,10 +268,10 @@ def check(tier, seed):
     specs = [{"kind": "lattice", "nv": nv, "shard": s, "nshards": NSHARDS} for s in range(NSHARDS)]
     specs += [{"kind": "random", "seed": seed, "shard": s, "n": n_random} for s in range(NSHARDS)]
     results = run_pool("vf.props.C16", specs, timeout=3600)
-    return judge(results, nv)
+    return judge(results, nv, tier, seed)
 
 
-def judge(results, nv):
+def judge(results, nv, tier="quick", seed=0):
     rep = Report(PROP)
     rep.rule = (
         "lattice: every simple polygon (non-zero area, no touching edges, collinear vertices allowed) with "
@@ -309,6 +309,9 @@ def judge(results, nv):
         if r["nbad"] > len(r["bad"]):
             rep.count("additional_mismatches_not_listed", r["nbad"] - len(r["bad"]))
     rep.extra["lattice_polygons"] = lat_polys
+    from vf.props import pool_common as _PC
+
+    _PC.add_workload_monitor_results(rep, PROP, tier, seed)
     rep.extra["classes_returned"] = classes
     rep.extra["lattice_min_nonzero_excess"] = None if min_ex == math.inf else min_ex
     rep.extra["nontrivial_pairs"] = nontriv
